@@ -93,6 +93,8 @@ func runC08(c0 *h.Ctx) {
 						c.Violation("honest request creation fails", det)
 						continue
 					}
+					// (RateLimitedTokenRequestState.RequestKey() returns nil on the unchanged tree: its field is never assigned.
+					// No listed property speaks about that accessor; the request key is taken from the wire request.)
 					if !bytes.Equal(st.ClientKey(), wantKey) {
 						c.Violation("client key encoding differs from [d]G compressed", det)
 					}
